@@ -110,6 +110,12 @@ def validate_repair_traces(v, prop, traces, ev, clause_filter=None):
         ev["traces"] = ev.get("traces", 0) + 1
         if not tinfo or tinfo.get("matched") != tinfo.get("len"):
             raise ToolError(f"trace {tp} not fully consumed by TraceRepair: {tinfo} {res.error_text[:800]}")
+        # an archive the real writer could not build (or that the independent decoder cannot decode) is a violation
+        for ln in open(tp):
+            if '"builderror"' in ln:
+                e = json.loads(ln)
+                v.violation(dict(check="repair-trace", clause="ArchiveBuilds", mode="-", enc=None, comp=None, st="builderror",
+                                 chunk=-1, badchunk=-1, first_unverified_chunk_is_0=False), dict(engine="repair", trace=tp, event=e))
         lines = None
         for b in tinfo.get("bad", []):
             clauses = sorted(b["clauses"])
